@@ -69,7 +69,7 @@ def build_jobs(ctx, gcs, embs):
         opts = [trb] + (["stop"] * 2 if minb_ok else []) + (["start"] * 2 if maxd_ok else [])
         trb = rng.choice(opts)
         jobs.append(dict(dgms=fl_dgms, hom_deg=hom, n=gc["n"], start=e.f(gc["a"]), stop=e.f(gc["a"] + (gc["n"] - 1) * gc["s"]),
-                         explicit=explicit, vec=vec, tr=tr, dv=bool(dv), trb=trb, intdtype=int(rng.random() < 0.6)))
+                         explicit=explicit, vec=vec, tr=tr, dv=bool(dv), trb=trb, intdtype=int(rng.random() < 0.6), reconfigure=int(rng.random() < 0.2)))
         skels.append(dict(dgms=dg, hom_deg=hom, a=gc["a"], n=gc["n"], s=gc["s"], exactemb=int(e.exact)))
     return jobs, skels
 
